@@ -1,18 +1,58 @@
-(* C25 -- property theorems (statements only; proofs in C25Proofs.v). *)
+(* C25 -- property theorems, part 1: ordering of the bounds (statements only; proofs in C25General.v, C25Hs.v, C25Proofs.v). *)
 From Coq Require Import Reals List Lra.
-From C25 Require Import C25Spec C25_gen C25Proofs.
+From C25 Require Import C25Spec C25General C25_gen C25Hs C25Proofs.
 Import ListNotations.
 Local Open Scope R_scope.
 
-(* hand-proved, two phases: Reuss = Phi(0) <= Phi(z1) <= Phi(z2) <= Voigt for 0 <= z1 <= z2 *)
+(* ---- any number of phases (hand-proved, lists): Reuss = Phi(0) <= Phi(z1) <= Phi(z2) <= Voigt for 0 <= z1 <= z2 *)
+Theorem C25_Phi_ordered_any_number_of_phases : forall l, adm l -> forall z1 z2, 0 <= z1 -> z1 <= z2 ->
+  reuss l <= Phi l z1 /\ Phi l z1 <= Phi l z2 /\ Phi l z2 <= voigt l.
+Proof. exact Phi_chain. Qed.
+Print Assumptions C25_Phi_ordered_any_number_of_phases.
+Theorem C25_Phi_at_zero_is_the_harmonic_mean : forall l, Phi l 0 = reuss l.
+Proof. exact Phi_reuss. Qed.
+Print Assumptions C25_Phi_at_zero_is_the_harmonic_mean.
+(* the specified Hashin-Shtrikman bounds (true min / max of mu_i and of H_i) are ordered for bulk AND shear moduli, any number of phases *)
+Theorem C25_hs_bounds_ordered_any_number_of_phases_3D : forall ph, adm3 ph ->
+  match hs_spec kstar3 H3 ph with
+  | [kl; ml; ku; mu] => reuss (fK ph) <= kl /\ kl <= ku /\ ku <= voigt (fK ph) /\ reuss (fM ph) <= ml /\ ml <= mu /\ mu <= voigt (fM ph)
+  | _ => False
+  end.
+Proof. exact (fun ph => hs_spec_ordered kstar3 H3 ph kstar3_pos kstar3_mono H3_pos). Qed.
+Print Assumptions C25_hs_bounds_ordered_any_number_of_phases_3D.
+Theorem C25_hs_bounds_ordered_any_number_of_phases_2D : forall ph, adm3 ph ->
+  match hs_spec kstar2 H2 ph with
+  | [kl; ml; ku; mu] => reuss (fK ph) <= kl /\ kl <= ku /\ ku <= voigt (fK ph) /\ reuss (fM ph) <= ml /\ ml <= mu /\ mu <= voigt (fM ph)
+  | _ => False
+  end.
+Proof. exact (fun ph => hs_spec_ordered kstar2 H2 ph kstar2_pos kstar2_mono H2_pos). Qed.
+Print Assumptions C25_hs_bounds_ordered_any_number_of_phases_2D.
+
+(* ---- the traced computeIsotropicHashinShtrikmanBounds<d> returns the specified bounds on EVERY leaf of its decision tree (all
+   orderings and ties of the mu_i and of the H_i, well-ordered or not): bulk and shear, 2 and 3 phases, d = 3 and d = 2 *)
+Theorem C25_hs_code_is_spec_3D_two_phases : forall f0 f1 K0 K1 m0 m1, adm3 [(f0, K0, m0); (f1, K1, m1)] ->
+  hs3_2 f0 f1 K0 K1 m0 m1 = Some (hs_spec kstar3 H3 [(f0, K0, m0); (f1, K1, m1)]).
+Proof. exact hs3_2_spec. Qed.
+Print Assumptions C25_hs_code_is_spec_3D_two_phases.
+Theorem C25_hs_code_is_spec_2D_two_phases : forall f0 f1 K0 K1 m0 m1, adm3 [(f0, K0, m0); (f1, K1, m1)] ->
+  hs2_2 f0 f1 K0 K1 m0 m1 = Some (hs_spec kstar2 H2 [(f0, K0, m0); (f1, K1, m1)]).
+Proof. exact hs2_2_spec. Qed.
+Print Assumptions C25_hs_code_is_spec_2D_two_phases.
+Theorem C25_hs_code_is_spec_3D_three_phases : forall f0 f1 f2 K0 K1 K2 m0 m1 m2, adm3 [(f0, K0, m0); (f1, K1, m1); (f2, K2, m2)] ->
+  hs3_3 f0 f1 f2 K0 K1 K2 m0 m1 m2 = Some (hs_spec kstar3 H3 [(f0, K0, m0); (f1, K1, m1); (f2, K2, m2)]).
+Proof. exact hs3_3_spec. Qed.
+Print Assumptions C25_hs_code_is_spec_3D_three_phases.
+Theorem C25_hs_code_is_spec_2D_three_phases : forall f0 f1 f2 K0 K1 K2 m0 m1 m2, adm3 [(f0, K0, m0); (f1, K1, m1); (f2, K2, m2)] ->
+  hs2_3 f0 f1 f2 K0 K1 K2 m0 m1 m2 = Some (hs_spec kstar2 H2 [(f0, K0, m0); (f1, K1, m1); (f2, K2, m2)]).
+Proof. exact hs2_3_spec. Qed.
+Print Assumptions C25_hs_code_is_spec_2D_three_phases.
+
+(* ---- first round (kept): two phases, bulk bounds *)
 Theorem C25_Phi_ordered_two_phases : forall f0 f1 x0 x1, 0 < f0 -> 0 < f1 -> f0 + f1 = 1 -> 0 < x0 -> 0 < x1 ->
   forall z1 z2, 0 <= z1 -> z1 <= z2 ->
   reuss2 f0 f1 x0 x1 <= Phi2 f0 f1 x0 x1 z1 /\ Phi2 f0 f1 x0 x1 z1 <= Phi2 f0 f1 x0 x1 z2 /\ Phi2 f0 f1 x0 x1 z2 <= voigt2 f0 f1 x0 x1.
 Proof. exact Phi2_chain. Qed.
 Print Assumptions C25_Phi_ordered_two_phases.
-
-(* computeIsotropicHashinShtrikmanBounds<3>, two phases, every outcome of max/min_element: the bulk bounds are Phi at 4/3 mu_min,
-   4/3 mu_max, and Reuss <= K_HS- <= K_HS+ <= Voigt *)
 Theorem C25_hs_bulk_3D_two_phases : forall f0 f1 K0 K1 m0 m1, admissible f0 f1 K0 K1 m0 m1 ->
   (exists ml mu, hs3_2 f0 f1 K0 K1 m0 m1 = Some [Phi2 f0 f1 K0 K1 (4 / 3 * Rmin m0 m1); ml; Phi2 f0 f1 K0 K1 (4 / 3 * Rmax m0 m1); mu]) /\
   (exists kl ml ku mu, hs3_2 f0 f1 K0 K1 m0 m1 = Some [kl; ml; ku; mu] /\
@@ -22,7 +62,6 @@ Proof.
   exact (conj (hs3_2_is_Phi _ _ _ _ _ _ H) (hs_bulk_two_phases (4 / 3) hs3_2 _ _ _ _ _ _ H ltac:(lra) (hs3_2_is_Phi _ _ _ _ _ _ H))).
 Qed.
 Print Assumptions C25_hs_bulk_3D_two_phases.
-(* same in plane strain (d = 2): K* = mu_min / mu_max *)
 Theorem C25_hs_bulk_2D_two_phases : forall f0 f1 K0 K1 m0 m1, admissible f0 f1 K0 K1 m0 m1 ->
   exists kl ml ku mu, hs2_2 f0 f1 K0 K1 m0 m1 = Some [kl; ml; ku; mu] /\
      reuss2 f0 f1 K0 K1 <= kl /\ kl <= ku /\ ku <= voigt2 f0 f1 K0 K1.
